@@ -106,7 +106,7 @@ impl<R: Read + Seek> ReadBox<&mut R> for Mp4aBox {
             }
             let header = BoxHeader::read(reader)?;
             let BoxHeader { name, size: s } = header;
-            if s > size {
+            if s > size || s < HEADER_SIZE {
                 return Err(Error::InvalidData(
                     "mp4a box contains a box with a larger size than it",
                 ));
